@@ -123,6 +123,7 @@ structure St where
   selected : List (Id × Flags) := []               -- Poll::selectedSockets
   interrupted : Bool := false
   eventfd : Nat := 0
+  pendingEfd : Nat := 0                            -- interrupt() calls from other threads between their two writes
   pc : Pc := .idle
   nextAuto : Id := 1000                            -- ids of accepted / connected clients
   scripts : Id → Nat → List Act := fun _ _ => []
